@@ -606,7 +606,7 @@ impl ElementRaw {
 
     /// `make_unique_item_name` ensures that a copied element has a unique name
     fn make_unique_item_name(&self, model: &AutosarModel, parent_path: &str) -> Result<String, AutosarDataError> {
-        let orig_name = self.item_name().ok_or(AutosarDataError::ElementNotIdentifiable {
+        let orig_name = self.item_name().ok_or_else(|| AutosarDataError::ElementNotIdentifiable {
             xmlpath: self.xml_path(),
         })?;
         let mut name = orig_name.clone();
